@@ -204,7 +204,9 @@ def chainStep (d : Drv) (line : String) : Drv × String :=
       | none => (d, "noblock")
       | some b =>
         match tamperBlock b field variant with
-        | some b' => ({ d with raw := { d.raw with store := sput d.raw.store (.block i) (.block b') } }, "ok")
+        | some b' =>
+          if b' = b then (d, "skip")
+          else ({ d with raw := { d.raw with store := sput d.raw.store (.block i) (.block b') } }, "ok")
         | none => (d, "skip")
     | none => bad
   | ["remove", i] => match i.toNat? with
@@ -223,7 +225,7 @@ def chainStep (d : Drv) (line : String) : Drv × String :=
   -- replay stream
   | ["rinit", shared, ts1, ts2] => match shared.toNat?, ts1.toNat?, ts2.toNat? with
     | some sh, some t1, some t2 =>
-      ({ d with reps := [initReplica C (sh != 0) [1] t1, initReplica C (sh != 0) [2] t2] }, "ok")
+      ({ d with reps := [initReplica C (sh != 0) [1] t1, initReplica C (sh != 0) [1] t2] }, "ok")
     | _, _, _ => bad
   | ["rroots"] =>
     (d, match d.reps with
